@@ -19,6 +19,18 @@ pub struct Named {
 #[compound]
 pub struct Slot(Option<P3>, LTerm);
 
+/// the Option field AFTER a term field (reification / walks that treat non-term children differently from term
+/// children see an earlier sibling here — seeded change C03-e)
+#[compound]
+pub struct Tols(LTerm, Option<P3>);
+
+pub fn mk_tols(t: LT, inner: Option<(LT, LT, LT)>) -> LT {
+    match inner {
+        Some((a, b, c)) => Tols_compound::_InnerTols(t, Some(Into::<P3<DU, DE>>::into(P3_compound::_InnerP3(a, b, c)))).into(),
+        None => Tols_compound::_InnerTols(t, None).into(),
+    }
+}
+
 pub fn mk_slot(inner: Option<(LT, LT, LT)>, t: LT) -> LT {
     match inner {
         Some((a, b, c)) => Slot_compound::_InnerSlot(Some(Into::<P3<DU, DE>>::into(P3_compound::_InnerP3(a, b, c))), t).into(),
@@ -103,6 +115,7 @@ pub fn arity(tag: usize) -> usize {
         1 => 3,
         2 => 2,
         3 => 2,
+        5 => 2,
         _ => 2,
     }
 }
@@ -330,6 +343,18 @@ impl Vars {
                 let t = self.build(&args[1]);
                 mk_slot(inner, t)
             }
+            T::Comp(5, args) => {
+                // `Tols(LTerm, Option<P3>)`: the same with the fields in the other order
+                let inner = match &args[1] {
+                    T::Comp(4, k) if k.len() == 1 => match &k[0] {
+                        T::Comp(1, abc) if abc.len() == 3 => Some((self.build(&abc[0]), self.build(&abc[1]), self.build(&abc[2]))),
+                        _ => None,
+                    },
+                    _ => None,
+                };
+                let t = self.build(&args[0]);
+                mk_tols(t, inner)
+            }
             T::Comp(tag, args) => {
                 let a: Vec<LT> = args.iter().map(|x| self.build(x)).collect();
                 match tag {
@@ -399,6 +424,7 @@ impl<'a> Reader<'a> {
             "Named" => 2,
             "Slot" => 3,
             "Some" | "None" => 4,
+            "Tols" => 5,
             _ => 0,
         };
         let kids: Vec<T> = obj
@@ -481,10 +507,25 @@ impl TermGen {
                 T::improper((0..n).map(|_| self.term(r, depth - 1)).collect(), tail)
             }
             6 | 7 | 8 if self.compounds => {
-                let tag = r.below(3);
-                T::Comp(tag, (0..arity(tag)).map(|_| self.term(r, depth - 1)).collect())
+                let tag = r.below(5);
+                if tag >= 3 {
+                    // a compound with an `Option` field (before or after its term field): Some(P3(..)) or None
+                    let opt = self.option_field(r, depth - 1);
+                    let t = self.term(r, depth - 1);
+                    if tag == 3 { T::Comp(3, vec![opt, t]) } else { T::Comp(5, vec![t, opt]) }
+                } else {
+                    T::Comp(tag, (0..arity(tag)).map(|_| self.term(r, depth - 1)).collect())
+                }
             }
             _ => T::cons(self.term(r, depth - 1), self.term(r, depth - 1)),
+        }
+    }
+    /// the `Option<P3>` field of a `Slot` / `Tols`: `comp4 []` (None) or `comp4 [comp1 [a, b, c]]` (Some)
+    pub fn option_field(&self, r: &mut Rng, depth: usize) -> T {
+        if r.chance(2, 5) {
+            T::Comp(4, vec![])
+        } else {
+            T::Comp(4, vec![T::Comp(1, (0..3).map(|_| self.term(r, depth.min(1))).collect())])
         }
     }
     /// a variant of `t`: same shape with some sub-terms replaced (to make unifiable pairs likely)
@@ -492,7 +533,20 @@ impl TermGen {
         if r.chance(1, 4) {
             return if r.chance(1, 2) { T::Var(r.below(self.nvars)) } else { self.term(r, depth.min(1)) };
         }
+        // an Option field stays an Option field: flipped between Some and None, or varied inside
+        let vary_opt = |gen: &TermGen, r: &mut Rng, o: &T| -> T {
+            match o {
+                T::Comp(4, k) if k.len() == 1 && !r.chance(1, 4) => match &k[0] {
+                    T::Comp(1, abc) => T::Comp(4, vec![T::Comp(1, abc.iter().map(|x| gen.variant(r, x, depth.saturating_sub(1))).collect())]),
+                    _ => o.clone(),
+                },
+                T::Comp(4, k) if k.is_empty() && !r.chance(1, 3) => o.clone(),
+                _ => gen.option_field(r, 1),
+            }
+        };
         match t {
+            T::Comp(3, a) => T::Comp(3, vec![vary_opt(self, r, &a[0]), self.variant(r, &a[1], depth.saturating_sub(1))]),
+            T::Comp(5, a) => T::Comp(5, vec![self.variant(r, &a[0], depth.saturating_sub(1)), vary_opt(self, r, &a[1])]),
             T::Cons(h, tl) => T::cons(self.variant(r, h, depth.saturating_sub(1)), self.variant(r, tl, depth.saturating_sub(1))),
             T::Comp(g, a) => T::Comp(*g, a.iter().map(|x| self.variant(r, x, depth.saturating_sub(1))).collect()),
             other => {
